@@ -40,9 +40,13 @@ def run_case(case, via_facade=False):
         if not np.array_equal(np.asarray(out[0]), np.array(x, dtype=float)):
             raise Violation("Weaver.integral_match changed x")
         return out[1]
+    xt = (lambda v: int(v)) if case.get("xint") else float
+    yt = (lambda v: int(v)) if case.get("yint") else float
     if case["as_list"]:
-        return integral_matching_reference_stretch(list(x), list(y), list(case["x_ref"]), list(case["y_ref"]), **kw)
-    return integral_matching_reference_stretch(np.array(x, dtype=float), np.array(y, dtype=float),
+        return integral_matching_reference_stretch([xt(v) for v in x], [yt(v) for v in y], list(case["x_ref"]),
+                                                   list(case["y_ref"]), **kw)
+    return integral_matching_reference_stretch(np.array(x, dtype=np.int64 if case.get("xint") else float),
+                                               np.array(y, dtype=np.int64 if case.get("yint") else float),
                                                np.array(case["x_ref"], dtype=float),
                                                np.array(case["y_ref"], dtype=float), **kw)
 
